@@ -39,6 +39,27 @@ def handle : List String → Option String
     let a ← Bytes.ofHex ha
     let b ← Bytes.ofHex hb
     some (outStr sgnStr (compareStr s a b))
+  | "sortcls" :: sys :: hs => do
+    let s ← System.ofWire sys
+    let vs ← hs.mapM Bytes.ofHex
+    -- insertion sort by System.Compare; adjacent equal elements form a class; classes printed
+    -- with their members in byte order (the order inside a class is not part of the property)
+    let lt (a b : Bytes) : Bool := match compareStr s a b with | .ok c => c < 0 | _ => false
+    let eq (a b : Bytes) : Bool := match compareStr s a b with | .ok c => c == 0 | _ => false
+    let ins (x : Bytes) (l : List Bytes) : List Bytes :=
+      let rec go : List Bytes → List Bytes
+        | [] => [x]
+        | y :: ys => if lt x y then x :: y :: ys else y :: go ys
+      go l
+    let sorted := vs.foldl (fun acc x => ins x acc) []
+    let classes : List (List Bytes) := sorted.foldl (fun acc v =>
+      match acc.getLast? with
+      | some c => if (match c.getLast? with | some w => eq w v | none => false) then acc.dropLast ++ [c ++ [v]] else acc ++ [[v]]
+      | none => [[v]]) []
+    let bytesLe (a b : Bytes) : Bool := cmpBytes a b ≤ 0
+    let showC (c : List Bytes) : String :=
+      "[" ++ ",".intercalate ((c.mergeSort bytesLe).map Bytes.toHex) ++ "]"
+    some ("ok" ++ String.join (classes.map (fun c => " " ++ showC c)))
   | ["diff", sys, ha, hb] => do
     let s ← System.ofWire sys
     let a ← Bytes.ofHex ha
